@@ -58,21 +58,25 @@ class TransferShelveCache:
 
         with shelve.open(db_path, flag='c') as database:
             # Update/add transfers
+            keys = set()
             for transfer in transfers:
+                # The username is prefixed with its length: when simply
+                # concatenating, ('ab', 'c') and ('a', 'bc') get the same key
+                # and one of the 2 transfers overwrites the other
                 key = hashlib.sha256(
                     (
+                        str(len(transfer.username)) + ':' +
                         transfer.username +
                         transfer.remote_path +
                         str(transfer.direction.value)
                     ).encode('utf-8')
                 ).hexdigest()
                 database[key] = transfer
+                keys.add(key)
 
-            # Remove non existing transfers
-            keys_to_delete = []
-            for key, db_transfer in database.items():
-                if not any(transfer == db_transfer for transfer in transfers):
-                    keys_to_delete.append(key)
+            # Remove non existing transfers. This includes entries stored under
+            # the key of older versions: those transfers were just stored again
+            keys_to_delete = [key for key in database.keys() if key not in keys]
             for key_to_delete in keys_to_delete:
                 database.pop(key_to_delete)
 
